@@ -463,11 +463,9 @@ def judge(v, res, box, when, rep, case, T):
 TCP_ACTIVE = 9.5  # shutdown instants are taken from the first ... seconds of the scenario
 TCP_MODES = ["at-once", 0.5, 10.0, "never"]  # what a raw peer does about a Release: hang up after ... seconds
 # Requests to one host are submitted one after the other, so that the client pool opens one connection per host. With
-# TCP_TWIN the requests to the silent peer are all submitted in one step while no connection to it exists yet: the
-# current TCPClient then opens one connection per request and forgets all but the last (they are never released; key
-# family tcp-duplicate-connection-orphaned). That is a separate defect, outside what this check was extended for; the
-# switch is here so that the dimension can be turned on once it is dealt with.
-TCP_TWIN = False
+# TCP_TWIN (every other scenario) the requests to the silent peer are all submitted in one step while no connection to
+# it exists yet: one connection per host must come out of that race (key family tcp-duplicate-connection-orphaned).
+TCP_TWIN = True
 
 
 def variant_tcp(vseed):
